@@ -187,11 +187,13 @@ claim('C09', 'proof',
 claim('C10', 'proof',
       'Lean 4 theorems C10_*: from the 4x4-block LMI alone (P symmetric) the identified weighted system satisfies strict '
       'dissipation with storage x^T P^-1 x, the l2-gain bound sum |y|^2 <= gamma^2 sum |u|^2 over EVERY finite horizon from '
-      'rest (induction, no side conditions: positivity and invertibility of P are derived from the LMI), and asymptotic '
-      'stability (its 2x2 sub-block is the spectral-radius block with rho = 1, reusing C09). Correspondence: problem A '
+      'rest (induction, no side conditions: positivity and invertibility of P are derived from the LMI), asymptotic '
+      'stability (its 2x2 sub-block is the spectral-radius block with rho = 1, reusing C09), and the H-infinity norm ITSELF: '
+      'C10_hinf_norm - zI - A is invertible on the unit circle and |G(z)u| <= gamma |u| for every |z| = 1 and every complex u '
+      '(dissipation applied to real and imaginary parts; no Parseval). Correspondence: problem A '
       'and _create_ss (no weight / pre / post) via PICOS evaluation vs the Lean blocks over Q; scripted-solver loop. '
       'Oracle: independently computed H-infinity norm (frequency sweep + refinement) vs gamma_ on cvxopt fits.',
-      'Partial on: Parseval (time-domain gain over all horizons = H-infinity norm) not proved; scipy zpk->ss and '
+      'Partial on: scipy zpk->ss and '
       "discretisation of LmiHinfZpkMeta trusted; 'optimal' means feasible up to tolerance (measured).",
       'Lean 4 proof (inverse-free bounded-real lemma, telescoping induction) + PICOS-evaluation correspondence + frequency-domain oracle',
       'DESIGN.md section 5 C10')
